@@ -50,6 +50,20 @@ func bigLit(n *big.Int) T {
 var curDefs map[string]string
 
 func app(sort, f string, args ...T) T {
+	if len(args) == 1 && (f == "if$ref" || f == "if$typ") {
+		a := args[0].s
+		if d, ok := curDefs[a]; ok && isAtom(a) {
+			a = d
+		}
+		if strings.HasPrefix(a, "(mk$Iface ") {
+			if parts := splitSexpr(a); len(parts) == 3 {
+				if f == "if$typ" {
+					return T{parts[1], sort}
+				}
+				return T{parts[2], sort}
+			}
+		}
+	}
 	if len(args) == 1 && strings.HasPrefix(f, "sl$") {
 		a := args[0].s
 		if d, ok := curDefs[a]; ok && isAtom(a) {
@@ -595,7 +609,7 @@ func (ex *Exec) constArray(dom, es string, v T) T {
 	if !ex.declared[name] {
 		ex.declared[name] = true
 		ex.decls = append(ex.decls, fmt.Sprintf("(declare-const %s %s)", name, as),
-			fmt.Sprintf("(assert (forall ((i %s)) (! (= (select %s i) %s) :pattern ((select %s i)))))", dom, name, v.s, name))
+			fmt.Sprintf("(assert (forall ((i %s)) (! (= (select %s i) %s) :pattern ((select %s i))))) ;relax", dom, name, v.s, name))
 	}
 	return T{name, as}
 }
